@@ -140,7 +140,7 @@ def random_call(rng, kind=None):
     dd = os.path.join(paths.REPO, 'basis_set_exchange', 'data')
     # the same directory under several spellings: each spelling is a different argument, hence a cold key (a cache miss)
     ddv = rng.choice([None, dd, dd, dd + '/', dd + '//', dd + '/.'])
-    c = rng.randrange(12) if kind is None else kind
+    c = rng.randrange(13) if kind is None else kind
     if c <= 3:
         kw = {f: True for f in FLAGS if rng.random() < 0.25}
         if rng.random() < 0.5:
@@ -186,6 +186,10 @@ def random_call(rng, kind=None):
         if rng.random() < 0.5:
             kw['fmt'] = rng.choice(['bib', 'txt', 'json'])
         return ('bse.get_references', (nm, ), kw)
+    if c == 12:
+        # the argument-free tables of the public API (roles, formats, ...): whatever they return is the caller's to edit
+        return ('bse.' + rng.choice(['get_roles', 'get_formats', 'get_reference_formats', 'get_reader_formats', 'get_writer_formats', 'get_archive_types',
+                                      'get_all_basis_names']), (), {})
     md = store.metadata()
     e = md[rng.choice(['6-31g', 'cc-pvdz', 'sto-3g'])]
     rel = e['versions'][e['latest_version']]['file_relpath']
@@ -365,7 +369,7 @@ def poison(ctx, seed, ref):
     share library-internal state with the damaged object) and the first call again: both must be what an uncached process
     returns"""
     rng = random.Random(seed)
-    kind = [0, 4, 5, 6, 9, 10, 10, 10, 11][seed % 9]       # the functions that return containers; get_references three times
+    kind = [0, 4, 5, 6, 9, 10, 10, 10, 11, 12, 12][seed % 11]       # the functions that return containers; get_references three times, the tables twice
     c1 = random_call(rng, kind)
     if kind in (0, 10):
         c1[2].pop('fmt', None)                              # a dictionary / list result, not text
@@ -376,7 +380,7 @@ def poison(ctx, seed, ref):
         c1 = (c1[0], (), {'data_dir': dd})
     for _ in range(40):
         c2 = random_call(rng, kind)
-        if (c2[1], c2[2]) != (c1[1], c1[2]):
+        if (c2[0], c2[1], c2[2]) != (c1[0], c1[1], c1[2]):
             break
     else:
         return
